@@ -150,6 +150,7 @@ func (t *Tokenizer) tokenizeBuffer(buf []byte, last bool) error {
 		case skipNewline:
 			t.line++
 			t.noff = off
+			i = 0
 			for i, b = range buf[off+1:] {
 				if spaceMap[b] != skipChar {
 					break
@@ -386,6 +387,7 @@ func (t *Tokenizer) tokenizeBuffer(buf []byte, last bool) error {
 			t.line++
 			t.noff = off
 			t.mode = afterMap
+			i = 0
 			for i, b = range buf[off+1:] {
 				if spaceMap[b] != skipChar {
 					break
